@@ -97,6 +97,16 @@ def run(chk, binary):
             continue
         scs.append(sc)
         meta.append((fopts, k, via_file, serial))
+    # written back with -i: a file is the concatenation of what its lines give, also when that is nothing at all
+    for _ in range(60 if thorough else 12):
+        allc = "".join(rng.choice(["# note\n", "#\n", "# x y\n"]) for _ in range(rng.randint(1, 3)))
+        mixed = "".join(rng.choice(["# note\n", "keep me\n", "x\n", "\n"]) for _ in range(rng.randint(2, 4))) + "tail\n"
+        files = [("notes.txt", allc.encode()), ("mixed.txt", mixed.encode())]
+        rng.shuffle(files)
+        cmds = rng.choice([["-g", "^#", "-m", "dd", "--end"], ["-v", "^#", "-c", "e", "--end"], ["-g", "^#", "-m", "dd", "--else", "-m", "x", "--end"], ["-m", "dd"]])
+        opts = ["--linewise", "-i"] + (["--serial"] if rng.random() < 0.3 else [])
+        scs.append({"files": files, "opts": opts, "cmds": cmds, "stdin": None})
+        meta.append(([], 2, True, "--serial" in opts))
     obs = D.scenarios_map(binary, scs)
     model = D.eval_model("c03", [D.model_case(sc, ob) for sc, ob in zip(scs, obs)])
     # per-line single runs (direct oracle)
